@@ -19,12 +19,17 @@ def _bcast(ctx, v, n):
     return [ctx.val(v)] * n
 
 
-def install_uf_tracer(ctx, o, tag='', positive_intensity=False, calls=None):
+def install_uf_tracer(ctx, o, tag='', positive_intensity=False, calls=None, unit_dirs=False):
     """monkeypatch o.trace / o.trace_generic; returns oracle(q, k, Hx, Hy, Px, Py, w) giving the UF value"""
     from optiland.distribution import create_distribution
     nsurf = o.surface_group.num_surfaces
 
     def val(q, k, Hx, Hy, Px, Py, w):
+        if unit_dirs and q in 'LMN':
+            # unit direction with N > 0 built from two uninterpreted slopes
+            l, m = (ctx.uf(f'{tag}slope{c}{k}', Hx, Hy, Px, Py, w) for c in 'xy')
+            s = ctx.sqrt(1 + l * l + m * m)
+            return {'L': l, 'M': m, 'N': 1.0}[q] / s
         v = ctx.uf(f'{tag}{q}{k}', Hx, Hy, Px, Py, w)
         if q == 'intensity' and positive_intensity:
             v = v * v
